@@ -35,6 +35,8 @@ var Atoms = []string{
 	"http", "https", "ws", "wss", "ftp", "file", "foo", "a", "x-y.z+1", "HTTP", "FiLe", "hTtPs", "9x", "gopher",
 	// code points whose Unicode case mapping lands in ASCII (Kelvin sign, dotted capital I, long s, Angstrom)
 	"\u212a", "\u0130", "\u017f", "\u212b", "\u212aa:", "htt\u212a:", "f\u0130le:", "\u0130:", "\u0131", "\u212a",
+	// digit and hex-digit lookalikes from other scripts (fullwidth, Arabic-Indic), huge numbers
+	"\uff11", "\uff10", "\uff41", "\uff26", "\u0663", ":\uff18\uff10", "[::\uff41]", "[::1.2.3.18446744073709551617]", "18446744073709551617", "1.2.3.18446744073709551617",
 	// delimiters
 	":", ":", ":", "/", "/", "/", "//", "//", "\\", "\\", "\\\\", "?", "?", "#", "#", "@", "@", "[", "]", ";", "=", "&",
 	// dot segments
@@ -88,7 +90,7 @@ var hostDomains = []string{"example.com", "h", "a.b.c", "EXAMPLE.org", "localhos
 var hostIPv4 = []string{"1.2.3.4", "127.0.0.1", "0x7f.1", "017.0.0.1", "4294967295", "0xffffffff", "1.2.3", "1.256", "256.1.1.1", "1.2.3.4.5", "1.2.3.4.", "0x", "0x.0x", "08", "1.2.3.08", "0300.0250.0.01", "999999999999", "1..2.3", "0XaBc", "1.0x", "%31.2.3.4", "１.2.3.4", "a.1", "a.0x1", "a.1.", "1.a", "+1", "-1", "0x-1", "1.2.3.+4"}
 var hostIPv6 = []string{"[::1]", "[1:2:3:4:5:6:7:8]", "[::]", "[1::]", "[::1.2.3.4]", "[0:0:0:0:0:0:0:0]", "[1:0:0:2:0:0:0:3]", "[1:0:0:0:2:0:0:3]", "[A:b::C]", "[0001:0::1]", "[::ffff:c0a8:1]", "[1:2:3:4:5:6:1.2.3.4]", "[1:2:3:4:5:6:7]", "[1:2:3:4:5:6:7:8:9]", "[:1]", "[1::2::3]", "[12345::]", "[::g]", "[::1.2.3]", "[::1.2.3.4.5]", "[::01.2.3.4]", "[::1.2.3.256]", "[1:2:3:4:5:6:7:1.2.3.4]", "[::1", "[[::1]]", "[::1]]", "[]", "[::%31]", "[::1]x", "[1:2:3:4:5:6::7:8]", "[1::8:]", "[0:0:1:0:0:1:0:0]",
 	"[1:2:3:4:5:6:1.2.3.4.5]", "[1:2:3:4:5:6:1.2.3.4.]", "[1:2:3:4:5:6:1.2.3.4:5]", "[1:2:3:4:5:6:7:8:]", "[1:2:3:4:5:6:7:8.]", "[1:2:3:4:5:6:7:8.9]", "[1:2:3:4:5:6:7::]", "[::1:2:3:4:5:6:7:8]", "[1:2:3:4:5:6:7:8::]", "[1:2:3:4:5:6:255.255.255.255.255]", "[::1.2.3.4.5.6.7.8]"}
-var hostBad = []string{"", "a b", "a<b", "a>b", "a^b", "a|b", "a%b", "a%00b", "%", "a\x7fb", "a\x00b", "a%2Fb", "a%3Ab", "a%40b", "a%5Bb", "\xff", "%ff", "%C3", "xn--", "xn--a.b", "a%23b", "a%3Fb", "a%5Cb", "a%20b", "a%7Cb", " ", "%00"}
+var hostBad = []string{"a\u200db.example", "a\u200cb", "xn--a.example", "\u05d01.com", "a\u0301\u0301.b", "\u0301a.com", "xn--0.com", "a\u2028b.com", "ab--c\u00e9", "", "a b", "a<b", "a>b", "a^b", "a|b", "a%b", "a%00b", "%", "a\x7fb", "a\x00b", "a%2Fb", "a%3Ab", "a%40b", "a%5Bb", "\xff", "%ff", "%C3", "xn--", "xn--a.b", "a%23b", "a%3Fb", "a%5Cb", "a%20b", "a%7Cb", " ", "%00"}
 var userinfos = []string{"u@", "u:p@", ":p@", "u:@", ":@", "@", "u%40:p%3A@", "us er:pa ss@", "a:b:c@", "a@b@", "é:ü@", "%@", "u;v=1:p/?@", "[u]:{p}@", "\x00:\x7f@", "u\\:p@"}
 var ports = []string{"", ":", ":80", ":443", ":21", ":0", ":8080", ":00080", ":65535", ":65536", ":99999999999999999999", ":8a", ":-1", ":+1", ": 80", ":80 ", ":0x50", ":٨٠"}
 var segs = []string{"", "a", "b", ".", "..", "%2e", "%2E%2e", ".%2e", "a b", "a%20b", "%41", "%", "%zz", "c:", "C|", "é", "\xff", "a;b=c", "{x}", "`", "\"", "<>", "?", "%3F", "%23", "%2F", "~", "a\\b", "index.html", "*", "'", "|", "^", "[", "]", "@", ":", "$&+,=", "\x7f", "\x01", "\u2028", "..a", "...", "%252e"}
